@@ -40,7 +40,7 @@ TOL = 1e-8
 
 
 def examples(tier):
-    return 240 if tier == "quick" else 4000
+    return 480 if tier == "quick" else 6000
 
 
 @st.composite
